@@ -67,7 +67,7 @@ CHECKS.update({
    text="Challenger histories (C05's generator) in the 8 configurations the prover has permutation tables for (Poseidon2/Poseidon1; BabyBear/KoalaBear degree 4, KoalaBear base-field permutation in the quintic circuit, Goldilocks degree 2) are compiled and executed honestly; then (a) one witness slot the verifier does not fix is forged in place or with re-execution of everything downstream, or (b) one input cell of one permutation-table row is set to a prover-chosen value (executor fault hook) and everything downstream derived from it; verifier-fixed slots keep their values; the forged traces are proven and verified. Accepted implies every sampled challenge equals the native transcript of the observed values. ~5000 forged proofs per quick run. Capacity outputs travelling through witness slots (extension-degree challengers) and coefficients read by the standard recompose table are listed findings; the unconstrained capacity of the first table row was found here and repaired.",
    note="Internal permutation round columns are regenerated honestly by the executors. A forged slot that no committed table carries (non-primitive output nobody reads) is discarded.", ref="DESIGN.md §3 C06, §7", engine="E2+E4"),
  "C14": dict(cat="exploration", tech="differential property testing (proptest): packed proof inputs vs the serde image of an independent proof, plus single-position perturbation with native verification as oracle",
-   text="For generated proof shapes (uni-STARK and batch-STARK families incl. lookups, preprocessed columns, ZK/hiding PCS and hiding MMCS; BabyBear/KoalaBear degree 4; heights, widths, quotient chunks, FRI parameters and cap heights varied) the verifier circuit is built from proof A and fed with the packed vectors of an independent proof B: lengths must equal the documented flat lengths, every allocated target must hold B's documented element (target structures walked against B's serialised form), and changing any single position (public, private, Merkle sibling data) must make the run fail iff native verification rejects the same change. Quick: 400 shapes x 400 sampled positions; thorough: every position of 6000 shapes.",
+   text="For generated proof shapes (uni-STARK and batch-STARK families incl. lookups, preprocessed columns, ZK/hiding PCS and hiding MMCS; BabyBear/KoalaBear degree 4; heights, widths, quotient chunks, FRI parameters and cap heights varied) the verifier circuit is built from proof A and fed with the packed vectors of an independent proof B: lengths must equal the documented flat lengths, every allocated target must hold B's documented element (target structures walked against B's serialised form), and changing any single position (public, private, Merkle sibling data) must make the run fail iff native verification rejects the same change. Quick: 400 shapes x 400 sampled positions plus 48 shapes with every position swept (hiding-MMCS family and Merkle caps above the root over-weighted); thorough: every position of 6000 shapes.",
    note="Trusted: serde image of the proof types, native p3 verifiers. ZK batches restricted to one table (upstream prover deadlock); pure extension deltas on lifted base-field public inputs have no native counterpart and are evidence-only.", ref="DESIGN.md §3 C14, §7", engine="E4"),
  "C15": dict(cat="fault_enumeration", tech="property-based structural fault injection (proptest + exhaustive single-alteration enumeration) on serialised proofs and companion data; optional libFuzzer target (harness/fuzz) over the same oracle; the thorough tier adds a bounded coverage-guided libFuzzer campaign (cargo-fuzz target harness/fuzz/c15_structural, 40000 runs) over the same mutation scripts, oracle and allow-list",
    text="Honest bundles of nine configurations (uni/batch/circuit-prover proofs; BabyBear, KoalaBear D4/D5, Goldilocks D2; preprocessed, lookups, ZK, non-primitive tables, multi-arity FRI) are serialised to JSON; the schema (variable-length arrays, count leaves, options) is probed from the deserialiser; EVERY array x {truncate, extend, empty}, EVERY option x toggle and EVERY count leaf x 21 edits is applied once (7983 cases), plus 8000 (thorough 200000) random 1-2 alteration combinations. Oracle: the pipeline allocate/verify_*_circuit/build/pack/set inputs/run never panics, never returns Ok where the native verifier rejects, and length changes of shape-validated vectors are rejected at build with InvalidProofShape. A recorded baseline (7410 alterations the recorded tree rejects while the circuit is built) must stay rejected at build time (rejection-moved-later).",
